@@ -196,6 +196,7 @@ type httpObs struct {
 	ErrMessage string   `json:"errMessage"`
 	MesgType   string   `json:"mesgType"`  // claim replies: the type of the message and the promises it carries
 	Promises   []string `json:"promises"`  // (sorted keys of the "promises" object)
+	States     []string `json:"states"`    // the states of the promises of the body, in rendering order
 }
 
 type grpcObs struct {
@@ -204,6 +205,7 @@ type grpcObs struct {
 	Flags    flags    `json:"flags"`
 	MesgType string   `json:"mesgType"`
 	Promises []string `json:"promises"`
+	States   []string `json:"states"`
 }
 
 type obs struct {
@@ -218,13 +220,15 @@ type obs struct {
 	Reached bool    `json:"reached"`
 	Replied bool    `json:"replied"`
 	Dead    bool    `json:"dead"`
+	Kstates []int   `json:"kstates"` // the states of the promises of the kernel answer (numbers of pkg/promise)
 	HTTP    httpObs `json:"http"`
 	GRPC    grpcObs `json:"grpc"`
 }
 
 func newObs(v *vector, proto string) *obs {
 	return &obs{E: "obs", I: v.I, Op: v.Op, Status: v.Status, Via: v.Via, Shape: v.Shape, Cause: v.Cause, Proto: proto,
-		HTTP: httpObs{Promises: []string{}}, GRPC: grpcObs{Promises: []string{}}}
+		Kstates: []int{},
+		HTTP:    httpObs{Promises: []string{}, States: []string{}}, GRPC: grpcObs{Promises: []string{}, States: []string{}}}
 }
 
 func classifyBody(body []byte) (kind string, code int, message string) {
@@ -251,8 +255,35 @@ func classifyBody(body []byte) (kind string, code int, message string) {
 	return "resource", 0, ""
 }
 
+// jsonStates collects the "state" of every promise object (it has id, state and timeout) of a
+// decoded body: arrays in order, objects by key.
+func jsonStates(v any, out *[]string) {
+	switch x := v.(type) {
+	case []any:
+		for _, e := range x {
+			jsonStates(e, out)
+		}
+	case map[string]any:
+		_, hasId := x["id"]
+		_, hasTimeout := x["timeout"]
+		if st, ok := x["state"].(string); ok && hasId && hasTimeout {
+			*out = append(*out, st)
+			return
+		}
+		keys := make([]string, 0, len(x))
+		for k := range x {
+			keys = append(keys, k)
+		}
+		sort.Strings(keys)
+		for _, k := range keys {
+			jsonStates(x[k], out)
+		}
+	}
+}
+
 func (w *worker) sendHTTP(r *lreq) (o httpObs, replied bool) {
 	o.Promises = []string{}
+	o.States = []string{}
 	hr := r.http()
 	if hr == nil {
 		return o, false
@@ -281,6 +312,10 @@ func (w *worker) sendHTTP(r *lreq) (o httpObs, replied bool) {
 	o.Code = resp.StatusCode
 	o.BodyKind, o.ErrCode, o.ErrMessage = classifyBody(b)
 	o.Promises = []string{}
+	var anyDoc any
+	if json.Unmarshal(b, &anyDoc) == nil {
+		jsonStates(anyDoc, &o.States)
+	}
 	var doc map[string]any
 	if json.Unmarshal(b, &doc) == nil {
 		if t, ok := doc["type"].(string); ok {
@@ -298,6 +333,7 @@ func (w *worker) sendHTTP(r *lreq) (o httpObs, replied bool) {
 
 func (w *worker) sendGRPC(r *lreq) (o grpcObs, replied bool) {
 	o.Promises = []string{}
+	o.States = []string{}
 	ctx, cancel := context.WithTimeout(context.Background(), clientTimeout)
 	defer cancel()
 	f, err := r.grpc(ctx, w.gc)
@@ -309,6 +345,9 @@ func (w *worker) sendGRPC(r *lreq) (o grpcObs, replied bool) {
 	}
 	o.Flags = f
 	o.MesgType, o.Promises = f.MesgType, f.Promises
+	if f.States != nil {
+		o.States = f.States
+	}
 	if o.Promises == nil {
 		o.Promises = []string{}
 	}
@@ -360,8 +399,12 @@ func (w *worker) runVectors(vs []*vector, from int) {
 		v, proto := vs[pos/2], protos[pos%2]
 		w.emit(&beginLine{E: "begin", I: v.I, Proto: proto, Pos: pos})
 
-		w.stub.program(v.answer())
+		ans, aerr := v.answer()
+		w.stub.program(ans, aerr)
 		o := newObs(v, proto)
+		if ans != nil {
+			o.Kstates = kernelStates(ans)
+		}
 		r := canonical(v.Op)
 		if proto == "http" {
 			o.HTTP, o.Replied = w.sendHTTP(r)
